@@ -50,6 +50,65 @@ MANIFEST = {
 }
 
 
+def exhaustion(ctx, prog, cls):
+    """T9.exhaust: two OrderedMultiDicts are equal only if their pair sequences have the same length.  On every path of the
+    OMD-vs-OMD branch of __eq__ that answers True, *both* pair iterators were seen exhausted: each is an argument of a
+    zip_longest(...) whose loop ran to its end, or the iterable of a for loop that ran to its end, or was probed with
+    next(it, S) and found to give S."""
+    from rules.common import paths_of, tests_on, PrivInl
+    eq = prog.func(cls + '.__eq__')
+    ci = prog.cls(cls)
+    w, paths = paths_of(prog, eq, recv=ci, model=PrivInl(prog))
+    n = 0
+    bad = None
+    for p in paths:
+        if p.kind != 'return' or p.outcome[1] is None:
+            continue
+        rv = w.expand(p.outcome[1])
+        # the pair iterators of this path: tokens of calls X.iteritems(multi=True) / items(multi=True)
+        its = {}
+        for nm, info in w.tokens.items():
+            if info[0] == 'call' and len(info) > 2 and isinstance(info[2].val, ast.Call) and isinstance(info[2].val.func, ast.Attribute) \
+                    and info[2].val.func.attr in ('iteritems', 'items') and any(k.arg == 'multi' for k in info[2].val.keywords) \
+                    and any(o is info[2] for o in p.ops):
+                its[nm] = txt(info[2].val.func.value)
+        if len(its) < 2:
+            continue
+        is_true = (isinstance(rv, ast.Constant) and rv.value is True)
+        cond_true = not isinstance(rv, ast.Constant)          # `return A and B`: judged as a conjunction of probes below
+        if not (is_true or cond_true):
+            continue
+        n += 1
+        done = set()
+        for o in p.ops:
+            if o.kind == 'iter_next' and o.info is False and o.val is not None:
+                src = w.expand(o.val)
+                for nm in its:
+                    if nm in {x.id for x in ast.walk(o.val) if isinstance(x, ast.Name)}:
+                        done.add(nm)
+                if isinstance(src, ast.Call) and call_name(src) in ('zip_longest', 'itertools.zip_longest'):
+                    for a in src.args:
+                        if isinstance(a, ast.Name) and a.id in its:
+                            done.add(a.id)
+                tk = o.val.id if isinstance(o.val, ast.Name) else None
+                info = w.tokens.get(tk) if tk else None
+                if info and info[0] == 'call' and isinstance(info[1], ast.Call) and call_name(info[1]) in ('zip_longest', 'itertools.zip_longest'):
+                    for a in info[1].args:
+                        if isinstance(a, ast.Name) and a.id in its:
+                            done.add(a.id)
+        probes = [t for t, truth, o in tests_on(w, p) if truth] + ([txt(rv)] if cond_true else [])
+        for nm in its:
+            if any(('next(%s, ' % nm) in t and ' is ' in t and ' is not ' not in t for t in probes):
+                done.add(nm)
+        if set(its) - done and bad is None:
+            bad = (p, sorted(its[x] for x in set(its) - done))
+    if n == 0:
+        ctx.unknown('T9.exhaust', eq.fq, 'no path of the OMD-vs-OMD comparison that can answer True found', eq.loc)
+    else:
+        ctx.ob('T9.exhaust', eq.fq, 'two OMDs are equal only after both pair sequences were seen exhausted', bad is None, loc=eq.loc,
+               detail='not seen exhausted: pairs of %s' % bad[1] if bad else '%d paths' % n, path=bad[0].describe() if bad else None)
+
+
 def run(ctx):
     from rules.common import check_sentinel_default as _csd
     for _c in SUBJECTS:
@@ -79,6 +138,12 @@ def run(ctx):
         from rules.common import check_default_returned
         for _n in ('get', 'getlist', 'pop', 'poplast'):
             check_default_returned(ctx, ctx.program, ctx.program.func(cls + '.' + _n), recv=ctx.program.cls(cls))
+        # None is a legal value: no accessor / mutator decides presence from a None-defaulted .get()
+        for _n in ('setdefault', 'add', 'addlist', 'update', 'update_extend', 'pop', 'popall', 'poplast', 'getlist'):
+            _f = ctx.program.resolve(ctx.program.cls(cls), _n)
+            if isinstance(_f, FuncInfo) and _f.cls is not None:
+                check_get_none_presence(ctx, _f)
+        exhaustion(ctx, ctx.program, cls)
         # T27: order-of-all-pairs consumers read the pair view
         prog = ctx.program
         cname = cls.split('.')[-1]
